@@ -1312,3 +1312,85 @@ func (c *Ctx) deepOriginsStop(v ssa.Value, depth int, stop func(callee string) b
 	}
 	return out
 }
+
+// forwardTarget: a closure (or function) whose whole body hands its work to ONE repository function or method and
+// returns that call's results - `func() error { return t.watch(ctx) }`, a bound-method wrapper - stands for that
+// function (a goroutine body or timer callback turned into a method). Otherwise fn itself.
+func forwardTarget(fn *ssa.Function) *ssa.Function {
+	for d := 0; d < 3 && fn != nil; d++ {
+		if len(fn.Blocks) != 1 {
+			return fn
+		}
+		var call ssa.CallInstruction
+		ok := true
+		for _, in := range fn.Blocks[0].Instrs {
+			switch x := in.(type) {
+			case *ssa.DebugRef, *ssa.UnOp, *ssa.FieldAddr, *ssa.Extract, *ssa.MakeInterface, *ssa.ChangeType, *ssa.ChangeInterface:
+			case *ssa.Call:
+				if call != nil {
+					ok = false
+				}
+				call = x
+			case *ssa.Return:
+				for _, rv := range x.Results {
+					v := rv
+					if ex, isEx := v.(*ssa.Extract); isEx {
+						v = ex.Tuple
+					}
+					if cv, isCall := v.(*ssa.Call); !isCall || ssa.CallInstruction(cv) != call {
+						if _, isConst := v.(*ssa.Const); !isConst {
+							ok = false
+						}
+					}
+				}
+			default:
+				ok = false
+			}
+		}
+		if !ok || call == nil {
+			return fn
+		}
+		g := staticCallee(call.Common())
+		if g == nil || g.Blocks == nil || !strings.HasPrefix(fnPkgPath(g), modPath) {
+			return fn
+		}
+		// only a pure hand-over: every argument is something the closure captured or was given
+		for _, a := range call.Common().Args {
+			switch x := a.(type) {
+			case *ssa.FreeVar, *ssa.Parameter:
+			case *ssa.UnOp:
+				if _, isFV := x.X.(*ssa.FreeVar); !isFV {
+					return fn
+				}
+			default:
+				return fn
+			}
+		}
+		fn = g
+	}
+	return fn
+}
+
+// callbackFunction resolves a function value handed to go / group.Go / time.AfterFunc: closure literal, bound method
+// value, plain function; trivial forwarders are looked through.
+func callbackFunction(v ssa.Value) *ssa.Function {
+	for {
+		if ct, ok := v.(*ssa.ChangeType); ok {
+			v = ct.X
+			continue
+		}
+		break
+	}
+	switch x := v.(type) {
+	case *ssa.MakeClosure:
+		if t := boundTarget(x); t != nil {
+			return forwardTarget(t)
+		}
+		if f, ok := x.Fn.(*ssa.Function); ok {
+			return forwardTarget(f)
+		}
+	case *ssa.Function:
+		return forwardTarget(x)
+	}
+	return nil
+}
